@@ -50,7 +50,7 @@ MANIFEST = {
             'equals the reference layout (markers, HHMM time, YYJJJ date, '
             'payload bytes) and the readers\' time reconstruction returns the '
             'flags, for every start day/hour of the enumerated years.'
-            ' Also: uamiv steps of 24 h and 72 h (6 h - 240 h thorough) starting on any day of 2003.',
+            ' Also: uamiv steps of 24 h and 72 h (6 h - 240 h thorough) starting on any day of 2003; every field of the uamiv grid/projection record equals the attribute it is named after (symbolic attribute values).',
     'note': 'Trusted: z3, symdatetime reference arithmetic. Partial claim: '
             'uamiv and lateral-boundary time flags and 5 met writers; grid header mapping, '
             'rewrite idempotence and the other CAMx formats are outside.',
@@ -324,6 +324,139 @@ class TimeRoundTrip(Obligation):
         return {'obs': obs, 'violations': viol, 'start': (self.year, j, H)}
 
 
+class _GridFields(dict):
+    """stand-in for the one-element structured grid-header array"""
+    itemsize = 76
+
+    def __setitem__(self, k, v):
+        a = np.empty((1,), dtype=object)
+        a[0] = np.asarray(v, dtype=object).reshape(-1)[0] \
+            if not isinstance(v, symx.Sym) else v
+        dict.__setitem__(self, k, a)
+
+    def __missing__(self, k):
+        a = np.empty((1,), dtype=object)
+        a[0] = 0
+        dict.__setitem__(self, k, a)
+        return a
+
+
+class GridHeader(Obligation):
+    """the grid/projection record of the gridded writer: every field holds the
+    attribute it is named after (statements `grid_hdr[...] = ...`, sliced)"""
+    mode = 'real'
+    validate_paths = 3
+    encoding_fragile = True
+    name = 'grid-header[uamiv writer]'
+    bounds = {'PLON PLAT XORIG YORIG XCELL YCELL TLAT1 TLAT2':
+              'reals in [-4096, 4096] (replayed as float32)',
+              'IUTM CPROJ ISTAG': 'integers 0..60 / 0..3 / 0..1'}
+    REALS = (('PLON', 'plon'), ('PLAT', 'plat'), ('XORIG', 'xorg'),
+             ('YORIG', 'yorg'), ('XCELL', 'delx'), ('YCELL', 'dely'),
+             ('TLAT1', 'tlat1'), ('TLAT2', 'tlat2'))
+    INTS = (('IUTM', 'iutm', 60), ('CPROJ', 'iproj', 3),
+            ('ISTAG', 'istag', 1))
+
+    def fallback_inputs(self):
+        return [{}, {'TLAT1': 45, 'TLAT2': 33, 'PLON': -97, 'PLAT': 40,
+                     'CPROJ': 2, 'XCELL': 12000, 'YCELL': 12000},
+                {'TLAT1': 60, 'TLAT2': 0, 'CPROJ': 3}]
+
+    def sym(self, ctx, h):
+        sp = loader.TwinSpace(objfloat='all')
+        run, info = loader.slice_kernel(
+            'PseudoNetCDF.camxfiles.uamiv.Write', 'ncf2uamiv',
+            ['grid_hdr[]'], guards=False, space=sp,
+            provided=['ncffile', 'grid_hdr'])
+        self._info, self._space = info, sp
+        wmod = sp.twin('PseudoNetCDF.camxfiles.uamiv.Write')
+        nc = _NCF()
+        nc.dimensions = {'COL': range(2), 'ROW': range(2), 'LAY': range(1),
+                         'VAR': range(1), 'TSTEP': range(1)}
+        vals = {}
+        for att, fld in self.REALS:
+            vals[att] = ctx.real(att, -4096, 4096)
+            setattr(nc, att, vals[att])
+        for att, fld, hi in self.INTS:
+            vals[att] = ctx.int(att, 0, hi)
+            setattr(nc, att, vals[att])
+        env = dict(wmod.__dict__)
+        env['ncffile'] = nc
+        env['grid_hdr'] = _GridFields()
+        try:
+            out = run(env)
+        except Exception as ex:
+            raise loader.HarnessError('grid header slice: %r' % (ex,))
+        gh = out['grid_hdr']
+        for att, fld in self.REALS:
+            if fld not in gh:
+                raise loader.HarnessError('grid header field %s not written'
+                                          % fld)
+            h.claim('field:' + fld, common.eq_expr(gh[fld][0], vals[att]))
+        for att, fld, hi in self.INTS:
+            if fld in gh:
+                h.claim('field:' + fld, common.eq_expr(gh[fld][0], vals[att]))
+        for fld, n in (('nx', 2), ('ny', 2), ('nz', 1)):
+            if fld in gh:
+                h.claim('field:' + fld, common.eq_expr(gh[fld][0], n))
+        h.observe('ok', True)
+
+    def real(self, inputs):
+        import os
+        import shutil
+        import tempfile
+        import warnings
+        vals = {}
+        for att, fld in self.REALS:
+            vals[att] = float(np.float32(float(frac_of(inputs.get(att, 0)))))
+        for att, fld, hi in self.INTS:
+            vals[att] = int(frac_of(inputs.get(att, 0)))
+        viol = {}
+        d = tempfile.mkdtemp(prefix='verif_c08_')
+        path = os.path.join(d, 'g.uamiv')
+        try:
+            with warnings.catch_warnings():
+                warnings.simplefilter('ignore')
+                from PseudoNetCDF import PseudoNetCDFFile
+                from PseudoNetCDF.camxfiles.uamiv.Write import ncf2uamiv
+                from PseudoNetCDF.camxfiles.uamiv.Memmap import uamiv
+                f = PseudoNetCDFFile()
+                for k, n in (('TSTEP', 1), ('LAY', 1), ('ROW', 2), ('COL', 2),
+                             ('VAR', 1), ('DATE-TIME', 2)):
+                    f.createDimension(k, n)
+                tv = f.createVariable('TFLAG', 'i', ('TSTEP', 'VAR',
+                                                     'DATE-TIME'))
+                tv[0, 0, :] = (2004100, 0)
+                v = f.createVariable('O3', 'f', ('TSTEP', 'LAY', 'ROW',
+                                                 'COL'))
+                v[:] = 1.
+                f.NAME, f.NOTE = 'AVERAGE   ', 'x'.ljust(60)
+                f.ITZON = 0
+                for k, x in vals.items():
+                    setattr(f, k, x)
+                f.TSTEP = 10000
+                setattr(f, 'VAR-LIST', 'O3'.ljust(16))
+                try:
+                    ncf2uamiv(f, path).close()
+                    g = uamiv(path)
+                    for att, fld in self.REALS:
+                        if float(getattr(g, att)) != vals[att]:
+                            viol['field:' + fld] = '%s written %r read %r' % (
+                                att, vals[att], float(getattr(g, att)))
+                    for att, fld, hi in self.INTS:
+                        if int(getattr(g, att)) != vals[att]:
+                            viol['field:' + fld] = '%s written %r read %r' % (
+                                att, vals[att], int(getattr(g, att)))
+                except Exception as ex:
+                    viol['writer-raised:' + type(ex).__name__] = \
+                        repr(ex)[:200]
+        finally:
+            shutil.rmtree(d, ignore_errors=True)
+        return {'obs': {'ok': True}, 'violations': viol, 'header': vals}
+
+    any_violation_confirms = True
+
+
 class LatBndTimeRoundTrip(TimeRoundTrip):
     """lateral-boundary writer: the statements that fill its time header
     (date/time reduction, end = begin + 1 h with day roll-over), composed
@@ -563,6 +696,7 @@ def obligations(tier):
     for st in ((24, 72) if tier == 'quick' else (6, 24, 48, 72, 240)):
         for et in (True, False):
             obs.append(TimeRoundTrip(2003, 2, et, step_h=st))
+    obs.append(GridHeader())
     from . import metwrite
     obs += metwrite.obligations(tier)
     for y in years:
